@@ -34,7 +34,7 @@ for name,m,mx in rows:
     status=m.get('status','kept')
     total+=1
     if hit: caught+=1
-    what=m['change']
+    what=m.get('change') or m.get('note','')
     if status!='kept': what='('+status+') '+what
     out.append("| %s | %s | %s | %s |" % (name, aimed, " | ".join(cells), what.replace('|','/')))
 out.append("")
